@@ -311,7 +311,7 @@ func c17Absolute(t *engine.T) {
 		{"block helper inside a partial inside a loop", `<%= for (e) in xs { %><%= partial("bh.html") %><% } %>`, "{a}{b}"},
 		{"a block rendered with its own context prints with that context's settings", `<% contentFor("tf") { %>[<%= when %>]<% } %><%= contentOf("tf", {"TIME_FORMAT": "2006"}) %>|<%= contentOf("tf") %>|<%= contentOf("undef", {"TIME_FORMAT": "Jan 2006"}) { %>(<%= when %>)<% } %>|<%= withfmt() { %><%= when %>;<%= [when][0] %><% } %>|<%= when %>`, "[2021]|[March 04, 2021 05:06:07 +0000]|(Mar 2021)|{03/2021;03/2021}|March 04, 2021 05:06:07 +0000"},
 		{"a layout wraps the partial it was given for, not the partials nested inside", `<%= partial("o2.html", {"layout": "lo.html"}) %>|<%= partial("o2.html") %>|<%= partial("o3.html", {"layout": "lo.html", "x": 5}) %>`, "L(o[leaf|leaf:1])|o[leaf|leaf:1]|L(p[o[leaf:5|leaf:1]|M(leaf:5)])"},
-		{"an output tag in a block prints the value as it is at that tag", `<% let a = [1, 2] %><%= a %><% a[0] = 7 %>|<%= if (true) { %><%= a %><% a[0] = 9 %><% } %>|<%= hasb() { %><%= a %><% a[1] = 5 %><% } %>|<% contentFor("late") { %><%= a %><% a[0] = 0 %><% } %><%= contentOf("late") %>|<% let f = fn() { %><%= a %><% a[1] = 1 %><% } %><%= f() %>|<%= for (x) in [1] { %><%= a %><% a[0] = 3 %><% } %>|<%= a %>`, "12|72|has=true[92]|95|05|01|31"},
+		{"an output tag in a block prints the value as it is at that tag", `<% let a = [1, 2] %><%= a %><% a[0] = 7 %>|<%= if (true) { %><%= a %><% a[0] = 9 %><% } %>|<%= hasb() { %><%= a %><%= [a, [a]] %><% a[1] = 5 %><% } %>|<% contentFor("late") { %><%= a %><% a[0] = 0 %><% } %><%= contentOf("late") %>|<% let f = fn() { %><%= a %><% a[1] = 1 %><% } %><%= f() %>|<%= for (x) in [1] { %><%= a %><% a[0] = 3 %><% } %>|<%= a %>`, "12|72|has=true[929292]|95|05|01|31"},
 		{"an empty block is a block", `<%= hasb() { %><% } %>|<%= hasb() {} %>|<%= hasb() { } %>|<%= hasb() %>|<%= hasb() { %> <% } %>|<%= hasb() { %><%# c %><% } %>|<%= hasb() { %><% let q = 1 %><% } %>`, "has=true[]|has=true[]|has=true[]|has=false[]|has=true[ ]|has=true[]|has=true[]"},
 		{"an empty default block of contentOf renders to nothing", `A<%= contentOf("undefined") { %><% } %>B<%= contentOf("undef2", {"a": 1}) { } %>C<%= contentOf("undef3") {} %>D`, "ABCD"},
 		{"an empty contentFor block renders to nothing", `<% contentFor("e1") { %><% } %><% contentFor("e2") {} %>A<%= contentOf("e1") %>B<%= contentOf("e2") { %>default<% } %>C`, "ABC"},
